@@ -16,7 +16,7 @@ func init() {
 		Explanation: "Decides structural necessary conditions of C08: (R-C08-1) in serveJSON the invocation of the handler function is edge-dominated by five gates -- Method == POST, Content-Type == application/json, Sec-X-Tailscale-No-Browsers == setec, nil error of getIdentity(r), nil error of decoding the body into the value passed on -- the identity gate precedes the decode, and every failing gate answers through http.Error with a constant non-2xx status; " +
 			"(R-C08-2) the only routes to a db.DB operation outside package db are the function literals handed to serveJSON and List in the HTML page (itself behind Method == GET and a nil identity error); every handler registered under /api/ is a method consisting of one serveJSON call; (R-C08-3) getIdentity returns a nil error only past the nil edges of ParseAddrPort, WhoIs and the capability unmarshal, and only for a tagged node or a non-empty login; " +
 			"(R-C08-4) status table: ErrAccessDenied -> 403, ErrNotFound -> 404, ErrValueNotChanged -> 304 with no body written on that path, any other error -> a constant 4xx/5xx, 200 and the only write of response data only under nil errors of the handler and of Marshal; the client maps 404/403/304 back to the same three sentinels; " +
-			"(R-C08-5) every http.Error text in package server is a constant and the handler's result flows only to json.Marshal and from there to the 200 body; (R-C08-7) every error handed to fmt.Errorf on the request path of package db is wrapped with %w, so the sentinels the table tests survive; (R-C08-8) in the store, the absent-secret and absent-version edges of every accessor (other than creation and the documented no-op delete) return an error built from ErrNotFound; (R-C08-6) the client sends the method and the two header values the gate compares with.",
+			"(R-C08-5) every http.Error text in package server is a constant and the handler's result flows only to json.Marshal and from there to the 200 body; (R-C08-7) every error handed to fmt.Errorf on the request path of package db is wrapped with %w, so the sentinels the table tests survive; (R-C08-8) in the store, the absent-secret and absent-version edges of every accessor (other than creation and the documented no-op delete) return an error built from ErrNotFound; (R-C08-6) the client sends the method and the two header values the gate compares with. (R-C08-10) the store answers not-modified exactly for the active version (C09's R-C09-1), which is what the 304 row maps.",
 		NotDecided:  "How encoding/json treats odd bodies (trusted); the tailnet's answers themselves.",
 		Trusted:     append([]string{"net/http.Error writes the given status", "errors.Is semantics"}, commonTrusted...),
 		Assumptions: []string{},
@@ -314,6 +314,8 @@ func runC08(c *eng.Ctx, tier string) {
 	// every look at the state, so a caller without the grant is answered 403
 	// whatever exists (C01's rule)
 	includeOnly(c, "R-C08-9", func(sc *eng.Ctx) { runC01(sc, "quick") }, "R-C01-1")
+	// 304 exactly when the named version is the active one: the store's not-modified answer (C09's rule)
+	includeOnly(c, "R-C08-10", func(sc *eng.Ctx) { runC09(sc, "quick") }, "R-C09-1")
 	eng.SetRoot(nil)
 	errorWrapDiscipline(c, "R-C08-7")
 	notFoundDiscipline(c, "R-C08-8")
